@@ -55,7 +55,9 @@ CallOK(e) ==
 
 DevSig(d, e) ==
   LET c == e.cfg IN
-  CASE d = "Dev_C07_F16Float8Act" -> c.dtype = "float16" /\ IsF8(c.act)
+  \* (values only: the result still has the dtype and the shape of the float result)
+  CASE d = "Dev_C07_F16Float8Act" -> c.dtype = "float16" /\ IsF8(c.act) /\ e.outcome = "value"
+                                     /\ e.out_dtype = c.dtype /\ e.out_shape = BatchShape(c) \o <<c.N>> /\ Len(e.out) = c.rows * c.N
     [] d = "Dev_C07_Int8PackCrash" -> c.dtype = "bfloat16" /\ c.act = "float" /\ c.wq = "qint8" /\ c.K % 4 = 0
                                       /\ (c.K % 16 # 0 \/ c.waxis = "per-tensor" \/ c.N = 1)
     [] d = "Dev_C07_StridedView" -> ~e.contiguous /\ c.brank = 3 /\ e.outcome = "RuntimeError"
